@@ -980,10 +980,17 @@ def build_damaged(dc: Dict[str, Any]) -> Tuple[bytes, bytes, Dict[int, Any], Dic
     tr = good.find(b"trailer", xr)
     m = re.compile(rb"startxref[\r\n]+(\d+)").search(good, sx)
     dmg = dc["damage"]
-    if dmg == "startxref-num":
+    if dmg == "startxref-num" and dc.get("startxref_value") is not None:
+        bad[m.start(1):m.end(1)] = str(dc["startxref_value"]).encode()      # corpus files pin the offset itself
+    elif dmg == "startxref-num":
         if arg % 3 == 0:
             # land on the start of some integer of the file (read_xref_from then takes the xref-stream branch)
             starts = [mm.start() for mm in re.finditer(rb"(?<![0-9])[0-9]", good)]
+            # ... preferably one shortly before a `stream` keyword (inside or at the end of a stream dictionary,
+            # e.g. the `n 0 R` of an indirect /Length): the tokens from there to `stream` are not a stream object
+            near = [p for p in starts if 0 <= good.find(b"stream", p) - p < 60]
+            if near and (arg // 3) % 2 == 0:
+                starts = near
             new = str(starts[(arg // 3) % len(starts)]).encode()
         elif arg % 3 == 1:
             # land inside the cross-reference section itself (its tail parses as an empty table)
